@@ -197,7 +197,9 @@ class C08(Prop):
                   "exactly when no request shown earlier is still in progress, every stream waiting in the transport is one the "
                   "filter refuses and a stream was refused in this poll or the peer's GOAWAY was processed — and then every waiting "
                   "stream has had its outcome and the queue is empty (D-08b); a shutdown(n) that answers Ok leaves a GOAWAY in force "
-                  "with an identifier not above the one it computed")
+                  "with an identifier not above the one it computed; over whole histories with distinct arrivals the judged history "
+                  "(observations + arrived / completed / shutdownCalled) satisfies the oracle's queue rules: one outcome per stream, "
+                  "None only when every opened stream has its outcome and every request shown is done, shutdown = Ok within its bound")
     level_note = ("trusted: Lean kernel + 3 standard axioms; hand model tied to the code by running real h3::server / h3::client "
                   "objects over SimQuic on the same scenario lines (Drv/C08.lean plays the harness tasks); the accept/reject line is "
                   "judged where accept() takes the stream from the transport (R-08); shutdown futures are awaited to completion and "
